@@ -151,6 +151,11 @@ func runShutdown(c *Ctx, r *shutRun, full bool) {
 			ct.pert.SetLevel(0)
 			if !rootClosed {
 				ct.c.Close()
+			} else if !isClosed(ct.c.Done()) {
+				// the trigger did not stop the root (already recorded as a
+				// problem): stop it by the other means so that the scenario ends
+				ct.cancel()
+				go ct.c.Close()
 			}
 			sched.Settle()
 			if t != nil {
@@ -454,6 +459,8 @@ func runC12(c *Ctx) {
 			// callers inside Cache().List() / Get() while the shutdown happens:
 			// each call returns (content or ErrNotRunning), none stays blocked
 			var readersLeft atomic.Int32
+			abort := make(chan struct{}) // closed when the scenario has failed: the callers below give up
+			aborted := func() bool { return isClosed(abort) }
 			var raceMu sync.Mutex
 			var raced []<-chan struct{}
 			var keepSubs []kcache.Subscription
@@ -469,7 +476,7 @@ func runC12(c *Ctx) {
 						} else {
 							_, err = ct.c.Cache().Get(Str(1), Str(1))
 						}
-						if err != nil {
+						if err != nil || aborted() {
 							return
 						}
 						time.Sleep(time.Millisecond)
@@ -518,7 +525,7 @@ func runC12(c *Ctx) {
 							}
 							m.Close()
 						}
-						if isClosed(ct.c.Done()) {
+						if isClosed(ct.c.Done()) || aborted() {
 							return
 						}
 						time.Sleep(5 * time.Millisecond)
@@ -583,6 +590,12 @@ func runC12(c *Ctx) {
 					stuck = sched.LibraryStacks()
 					problems = append(problems, fmt.Sprintf("%d callers of Cache().List()/Get()/Subscribe()/Clone()/NewMonitor() are still blocked after Done() closed (%s, closed %v after start)", n, mode, at))
 				}
+			}
+			if len(problems) > 0 {
+				// the tree did not shut down: end the scenario (what is still
+				// blocked is reported through the bubble's deadlock detection)
+				close(abort)
+				return
 			}
 			for _, n := range t.nodes {
 				if n.readerEnd != nil {
